@@ -26,10 +26,13 @@ ASSUMPTIONS = [
 ] + c01.ASSUMPTIONS[:2]
 
 VALUES = ["%a% -x", "-p%b%", "p%a%q", "%a%", "%a%%b%", "x%a%y%b%z", "%c%", "*%a%*", "%a%*", "\\%a%", "a\\%b%a%", "%a% and %b%", "plain", "%a%%a%", "%b%x",
-          "%zz%", "100%", "%", "%%", "%a", "%a%?"]
+          "%zz%", "100%", "%", "%%", "%a", "%a%?",
+          # names are everything between two percent signs: blanks, dashes, dots, non-ASCII letters, digits first
+          "%Domain Admins%", "x%dom-adm%", "%d.a%%a%", "%Ünïcode%y", "%1st%"]
 VARS_POOL = {"a": [["v1", "v2"], ["v1"], "single", ["w*", 3], [1.5, "x y"], [], [None], {"k": 1}, ["a\\*b"], [True]],
              "b": [["b1", "b2"], "B", [2], ["*"], None],
-             "c": [["c1"], ["c1", "c2", "c3"]]}
+             "c": [["c1"], ["c1", "c2", "c3"]],
+             "Domain Admins": [["da1", "da2"], "DA"], "dom-adm": [["m1"]], "d.a": ["p", ["p1", "p2"]], "Ünïcode": [["u"]], "1st": [[1]]}
 
 
 def gen_pipeline(rnd):
@@ -40,9 +43,9 @@ def gen_pipeline(rnd):
         ie = rnd.random()
         inc = exc = None
         if ie < 0.3:
-            inc = rnd.sample(["a", "b", "c", "zz"], rnd.randint(1, 2))
+            inc = rnd.sample(["a", "b", "c", "zz", "Domain Admins", "dom-adm", "d.a"], rnd.randint(1, 2))
         elif ie < 0.5:
-            exc = rnd.sample(["a", "b", "c", "zz"], rnd.randint(1, 2))
+            exc = rnd.sample(["a", "b", "c", "zz", "Domain Admins", "dom-adm", "d.a"], rnd.randint(1, 2))
         it = {"kind": kind, "include": inc, "exclude": exc}
         if kind == "query":
             it["mapping"] = rnd.choice([{}, {"a": "list_a"}, {"b": "LB", "c": "LC"}])
